@@ -603,3 +603,15 @@ def run(case, j):
 
 def _known_purity(name, where):
     return None
+
+
+def extra_run(tier):
+    """Thorough tier: the repository's whole test-suite with the purity guard around every public
+    constructor / method / metric function it calls."""
+    from .. import suite
+
+    r = suite.run_suite(["purity"])
+    r["contracts"] = ["purity"]
+    if not r["inconclusive"] and r["counters"].get("suite:purity_call", 0) < 10000:
+        r["inconclusive"].append("fewer than 10000 calls of the repository's tests were seen by the purity guard")
+    return r
